@@ -94,6 +94,113 @@ const (
 	fmtAddUnionLenToAt   = "at += 5 + int(iohelp.ReadUint32Bytes(buf[at:]))\n"
 )
 
+// A struct has no length prefix. One that holds a message or union (directly, in an array or map,
+// or through another struct) can be longer on the wire than Size() of what this version of the
+// schema understood of it, so its parent skips it by the number of bytes its decoder consumed.
+const (
+	fmtMakeCounted     = "{\n\tvar n int\n\t%ASGN, err = make%TYPEFromBytesN(buf[at:], &n)\n\tif err != nil {\n\t\treturn err\n\t}\n\tat += n\n}\n"
+	fmtMustMakeCounted = "{\n\tvar n int\n\t%ASGN = mustMake%TYPEFromBytesN(buf[at:], &n)\n\tat += n\n}\n"
+)
+
+// structsHoldingRecords reports, by name, the structs of this package whose wire length can
+// exceed their Size(): those that contain a message or union anywhere inside them by value.
+func (f File) structsHoldingRecords(gs GenerateSettings) map[string]bool {
+	lengthPrefixed := map[string]bool{}
+	structs := map[string]Struct{}
+	for _, st := range f.Structs {
+		structs[st.Name] = st
+	}
+	for _, msg := range f.Messages {
+		lengthPrefixed[msg.Name] = true
+	}
+	for _, un := range f.Unions {
+		lengthPrefixed[un.Name] = true
+		for _, ufd := range un.Fields {
+			if ufd.Struct != nil {
+				structs[ufd.Struct.Name] = *ufd.Struct
+			}
+			if ufd.Message != nil {
+				lengthPrefixed[ufd.Message.Name] = true
+			}
+		}
+	}
+	holds := map[string]bool{}
+	visiting := map[string]bool{}
+	var typeHolds func(ft FieldType) bool
+	structHolds := func(name string) bool {
+		if known, ok := holds[name]; ok {
+			return known
+		}
+		st, ok := structs[name]
+		if !ok || visiting[name] {
+			return false
+		}
+		visiting[name] = true
+		for _, fd := range st.Fields {
+			if typeHolds(fd.FieldType) {
+				holds[name] = true
+				break
+			}
+		}
+		visiting[name] = false
+		return holds[name]
+	}
+	typeHolds = func(ft FieldType) bool {
+		if ft.Array != nil {
+			return typeHolds(*ft.Array)
+		}
+		if ft.Map != nil {
+			return typeHolds(ft.Map.Value)
+		}
+		name := ft.Simple
+		if alias, ok := gs.importTypeAliases[name]; ok {
+			name = alias
+		}
+		return lengthPrefixed[name] || structHolds(name)
+	}
+	// only structs that are nested somewhere have a parent that needs the count
+	nested := map[string]bool{}
+	var markNested func(ft FieldType)
+	markNested = func(ft FieldType) {
+		if ft.Array != nil {
+			markNested(*ft.Array)
+		} else if ft.Map != nil {
+			markNested(ft.Map.Value)
+		} else if alias, ok := gs.importTypeAliases[ft.Simple]; ok {
+			nested[alias] = true
+		} else {
+			nested[ft.Simple] = true
+		}
+	}
+	for _, st := range structs {
+		for _, fd := range st.Fields {
+			markNested(fd.FieldType)
+		}
+	}
+	for _, msg := range f.Messages {
+		for _, fd := range msg.Fields {
+			markNested(fd.FieldType)
+		}
+	}
+	for _, un := range f.Unions {
+		for _, ufd := range un.Fields {
+			if ufd.Message != nil {
+				for _, fd := range ufd.Message.Fields {
+					markNested(fd.FieldType)
+				}
+			}
+		}
+	}
+	out := map[string]bool{}
+	for name, st := range structs {
+		// a struct generated into another package has no counted decoder we could call
+		if st.Namespace == "" && nested[name] && structHolds(name) {
+			out[name] = true
+		}
+	}
+	return out
+}
+
 var fixedSizeTypes = map[string]uint8{
 	typeBool:    1,
 	typeByte:    1,
@@ -342,9 +449,14 @@ func (f File) typeByteReaders(gs GenerateSettings) map[string]string {
 	out[typeString] = "%ASGN = iohelp.Must" + stringRead + "\n" + fmtAdd4PlusLenToAt
 	out["string&safe"] = "%ASGN, err = iohelp." + stringRead + "\n" + fmtErrReturn + "\n" + fmtAdd4PlusLenToAt
 
+	counted := f.structsHoldingRecords(gs)
 	for _, st := range f.Structs {
 		out[st.Name] = mustMakeFormat(st.Namespace, gs) + fmtAddSizeToAt
 		out[st.Name+hintSafeKey] = makeFormat(st.Namespace, gs) + fmtErrReturn + "\n" + fmtAddSizeToAt
+		if counted[st.Name] {
+			out[st.Name] = fmtMustMakeCounted
+			out[st.Name+hintSafeKey] = fmtMakeCounted
+		}
 	}
 	for _, msg := range f.Messages {
 		out[msg.Name] = mustMakeFormat(msg.Namespace, gs) + fmtAddMessageLenToAt
@@ -354,6 +466,12 @@ func (f File) typeByteReaders(gs GenerateSettings) map[string]string {
 		uout := union.typeByteReaders(gs)
 		for k, v := range uout {
 			out[k] = v
+		}
+		for _, ufd := range union.Fields {
+			if ufd.Struct != nil && counted[ufd.Struct.Name] {
+				out[ufd.Struct.Name] = fmtMustMakeCounted
+				out[ufd.Struct.Name+hintSafeKey] = fmtMakeCounted
+			}
 		}
 	}
 	return out
